@@ -24,7 +24,7 @@ CLAIMS.update({
    technique="type-graph route enumeration vs. abstract interpretation of the generator", ref="5 C14"),
 })
 CLAIMS.update({
- "C01": dict(text="Decides necessary structural clauses of losslessness per interpreter version: every code() slot's co_* attribute is read; role conservation (composing encoder provenance of each CodeType slot with decoder provenance of the fields it uses yields co_s and no foreign table); every data-class field is produced input-dependently and consumed by the encoder; every compiler-emittable flag has a representation (one known finding); inverse-pair constants. Byte equality for any particular program is not decided. Also decided: the line mapping built by the encoder has a key for every code unit when the table builder sizes the table from the last key; field-by-field rebuilds of data classes omit no field; identity tests never compare numbers/strings; decoder and encoder pre-assign the same table slots; widths of multi-unit jumps are recorded.",
+ "C01": dict(text="Decides necessary structural clauses of losslessness per interpreter version: every code() slot's co_* attribute is read; role conservation (composing encoder provenance of each CodeType slot with decoder provenance of the fields it uses yields co_s and no foreign table); every data-class field is produced input-dependently and consumed by the encoder; every flag a code object can legitimately carry has a representation (known findings: barry_as_FLUFL, the __future__ flags copied by compile(flags=), ITERABLE_COROUTINE); the line-table entries of every code unit reach the data (known finding: one line per instruction); inverse-pair constants. Byte equality for any particular program is not decided. Also decided: the line mapping built by the encoder has a key for every code unit when the table builder sizes the table from the last key; field-by-field rebuilds of data classes omit no field; identity tests never compare numbers/strings; decoder and encoder pre-assign the same table slots; widths of multi-unit jumps are recorded.",
    technique="inter-procedural provenance (context-sensitive abstract interpretation), composed across decoder and encoder; CPython contract tables", ref="5 C01"),
  "C02": dict(text="Decides the facts a mirrored decoder/encoder error would corrupt while the round trip stays green: category->table binding against each stdlib's opcode/dis tables, category exhaustiveness, jump scale and offset arithmetic by finite evaluation per version, cell/free split, line key = first code unit, accumulator reset. Correctness of each decoded value for a given program is not decided. Also: every EXTENDED_ARG prefix contributes to the operand (def-use over the parser loop); the decoded line is a running sum of table deltas. The NoArg class is exactly the opcodes below HAVE_ARGUMENT per version; local memos are keyed by every loop-varying argument; every line that is not None is shifted.",
    technique="provenance by abstract interpretation + finite-domain evaluation of extracted expressions against CPython tables parsed from stdlib sources", ref="5 C02"),
@@ -34,13 +34,13 @@ CLAIMS.update({
 CLAIMS.update({
  "C04": dict(text="Decides the co_varnames layout contract on both sides (symbolic evaluation of the decoder's slicing with linear forms over the argument counts on the four VARARGS x VARKEYWORDS paths; concatenation order of the encoder's prefix and seeds), the signature order and kinds of Args.parameters, count/flag derivation, the docstring rule and the function-kind inference by finite evaluation, and len(args). A round trip cannot see a layout error shared by both sides; comparison with inspect on real functions is not executed. The function kind is evaluated as a block over each flag subset the compiler can produce; negative slice bounds are understood. The argument decoder is called unconditionally; data classes keep the field values they are given; no substring membership tests on names.",
    technique="symbolic evaluation with linear forms + concatenation-order extraction + finite-domain evaluation (ast)", ref="5 C04"),
- "C07": dict(text="Decides agreement of encoder, decoder and JSON_SCHEMA: tag key sets, string enumerations, operand-class unions and discriminators; per field, every emittable JSON shape (armed where decoder provenance shows arbitrary values) is accepted by the schema node and converted back; strictness guards dominate raw numeric returns; only dicts/lists are built; default hiding is injective; decimal conversions of unbounded ints are reported (two known findings). Behaviour of JSON libraries and to_code() identity are not decided. Also: library codecs of a tag form an inverse pair; hidden defaults have no compare=False fields; encoded values are never ordered without a key.",
+ "C07": dict(text="Decides agreement of encoder, decoder and JSON_SCHEMA: tag key sets, string enumerations, operand-class unions and discriminators; per field, every emittable JSON shape (armed where decoder provenance shows arbitrary values) is accepted by the schema node and converted back; strictness guards dominate raw numeric returns; only dicts/lists are built; default hiding is injective; decimal conversions of unbounded ints are reported (two known findings); every string a code object carries, names included, survives in tagged form. Behaviour of JSON libraries and to_code() identity are not decided. Also: library codecs of a tag form an inverse pair; hidden defaults have no compare=False fields; encoded values are never ordered without a key.",
    technique="three-way structural comparison (ast of encoder/decoder, schema literal, type graph) + path-sensitive guard walk + provenance from abstract interpretation", ref="5 C07"),
  "C13": dict(text="Decides that block boundaries are a function of {0} U {decoded jump targets} only: initial value, sole writer, executed for every Jump operand; a block opens iff the instruction's first offset is in the sorted target list; unconditional append (no empty block, order-preserving partition); jump targets rewritten through the same sorted list. Jump operands are reassembled from all their prefixes (shared prefix-carry rule). Index look-ups by bisect over a part of the target list are declined (exit 2); local memos are keyed by every loop-varying argument.",
    technique="ast rule checking over the decoder's two loops with points-to facts", ref="5 C13"),
 })
 CLAIMS.update({
- "C03": dict(text="Decides guards, keys and width constants the encoder cannot be right without on hand-built data: gap guard before table compaction and keyed collision check (finite evaluation on model index maps / values), constants table keyed by Constant.__eq__'s key function, exact constant key, operand-width thresholds and unit emission reassembling under the decoder's shift, no Optional line into arithmetic (two known findings on the lnotab path), relaxation-loop shape and agreement of all size computations. Termination/fixed-point correctness of relaxation and the synthesised line table are not decided. Also: the encoder keys an instruction's line at its first code unit; the None pin at constants[0] holds for every kind of function. The table's index map is written by the checked setter only; lines are never tested by truthiness; flags are written back as described.",
+ "C03": dict(text="Decides guards, keys and width constants the encoder cannot be right without on hand-built data: gap guard before table compaction and keyed collision check (finite evaluation on model index maps / values), constants table keyed by Constant.__eq__'s key function, exact constant key, operand-width thresholds and unit emission reassembling under the decoder's shift, no Optional line into arithmetic (two known findings on the lnotab path); operands are final before the layout; table keys identify the entry; no guard is an assert statement; NaN sign (known finding), relaxation-loop shape and agreement of all size computations. Termination/fixed-point correctness of relaxation and the synthesised line table are not decided. Also: the encoder keys an instruction's line at its first code unit; the None pin at constants[0] holds for every kind of function. The table's index map is written by the checked setter only; lines are never tested by truthiness; flags are written back as described.",
    technique="finite-domain evaluation of extracted guards / threshold tables + points-to facts + ast shape rules", ref="5 C03"),
  "C10": dict(text="Decides the format constants of the line-table codec per format (merge thresholds = split emissions = CPython's limits over the whole byte domain; split-loop coherence; -128<->None sentinel iff linetable; (unsigned, signed) byte pairing). Arithmetic over integer sequences (cursor logic of collapse_items on merged entries, loop bounds computed from sums, zero-width entries) is explicitly NOT decided by static analysis here. Added: the mapping builder's running line is moved by adding deltas only (a necessary condition of the decoded-line clause); stage functions are located by their place in the drivers' call chains. Also decided (necessary conditions of the decoded-line and byte-identity clauses): deltas are taken against the last real line, the no-line marker survives continuation entries, shortcuts around the split loops stay within one entry, the lnotab walk cannot end while entries remain, lines are never tested by truthiness.",
    technique="finite-domain evaluation of extracted predicates over the format's value domain", ref="5 C10 and 8"),
